@@ -203,6 +203,15 @@ func replayNative(spec *Spec, hs HarnessSpec, rfile string, v *Violation) replay
 	}
 	pkgName, err := goPackageName(filepath.Join("/repo", hs.Pkg))
 	if err != nil {
+		for _, f := range spec.Files {
+			if f.Pkg == hs.Pkg {
+				if n, e2 := packageClause(filepath.Join(specDir, f.Src)); e2 == nil {
+					pkgName, err = n, nil
+				}
+			}
+		}
+	}
+	if err != nil {
 		out.Detail = err.Error()
 		return out
 	}
@@ -244,10 +253,29 @@ func TestVerifReplay(t *testing.T) {
 	repl[filepath.Join("/repo", hs.Pkg, "zz_verif_replay_test.go")] = tf
 	ovf := filepath.Join(tmp, "overlay.json")
 	writeJSON(ovf, map[string]interface{}{"Replace": repl})
-	cmd := exec.Command("go", "test", "-tags", "verif", "-overlay", ovf, "-run", "^TestVerifReplay$", "-count=1", "-v", "-vet=off", "-timeout", "20m", "./"+hs.Pkg)
-	cmd.Dir = "/repo"
-	cmd.Env = append(os.Environ(), "GOFLAGS=-mod=mod", "GOPROXY=off", "GOSUMDB=off", "GOTOOLCHAIN=local", "VERIF_REPLAY="+rfile)
+	bin := filepath.Join(tmp, "replay.test")
+	env := append(os.Environ(), "GOFLAGS=-mod=mod", "GOPROXY=off", "GOSUMDB=off", "GOTOOLCHAIN=local", "VERIF_REPLAY="+rfile)
 	var buf bytes.Buffer
+	build := exec.Command("go", "test", "-c", "-tags", "verif", "-overlay", ovf, "-vet=off", "-o", bin, "./"+hs.Pkg)
+	build.Dir = "/repo"
+	build.Env = env
+	build.Stdout = &buf
+	build.Stderr = &buf
+	if err := build.Run(); err != nil {
+		tail := buf.String()
+		if len(tail) > 800 {
+			tail = tail[len(tail)-800:]
+		}
+		out.Detail = "replay build failed: " + strings.ReplaceAll(tail, "\n", " | ")
+		return out
+	}
+	buf.Reset()
+	cmd := exec.Command(bin, "-test.run", "^TestVerifReplay$", "-test.v", "-test.timeout", "20m")
+	cmd.Dir = "/repo"
+	if st, e2 := os.Stat(filepath.Join("/repo", hs.Pkg)); e2 == nil && st.IsDir() {
+		cmd.Dir = filepath.Join("/repo", hs.Pkg)
+	}
+	cmd.Env = env
 	cmd.Stdout = &buf
 	cmd.Stderr = &buf
 	err = cmd.Run()
@@ -283,6 +311,20 @@ func TestVerifReplay(t *testing.T) {
 		}
 	}
 	return out
+}
+
+func packageClause(file string) (string, error) {
+	b, err := os.ReadFile(file)
+	if err != nil {
+		return "", err
+	}
+	for _, l := range strings.Split(string(b), "\n") {
+		l = strings.TrimSpace(l)
+		if strings.HasPrefix(l, "package ") {
+			return strings.Fields(l)[1], nil
+		}
+	}
+	return "", fmt.Errorf("no package clause in %s", file)
 }
 
 func goPackageName(dir string) (string, error) {
@@ -387,4 +429,37 @@ func writeEvidence(prop, tier string, seed int, rr *RunResult, spec *Spec, repla
 	}
 	os.MkdirAll(filepath.Join(verifDir(), "evidence"), 0o755)
 	writeJSON(filepath.Join(verifDir(), "evidence", prop+".json"), ev)
+}
+
+// cmdReplay: re-run a stored counterexample natively. Exit 1 if it reproduces.
+func cmdReplay(args []string) int {
+	if len(args) < 1 {
+		fmt.Println("usage: symx replay <replay.json>")
+		return 2
+	}
+	b, err := os.ReadFile(args[0])
+	if err != nil {
+		fmt.Println(err)
+		return 2
+	}
+	var r struct {
+		Property, Harness, Label, Kind, Pos string
+	}
+	if err := json.Unmarshal(b, &r); err != nil {
+		fmt.Println(err)
+		return 2
+	}
+	spec, err := loadSpec(filepath.Join(verifDir(), "harness", r.Property, "spec.json"))
+	if err != nil {
+		fmt.Println(err)
+		return 2
+	}
+	hs := findHarnessSpec(spec, r.Harness)
+	abs, _ := filepath.Abs(args[0])
+	out := replayNative(spec, hs, abs, &Violation{Harness: r.Harness, Label: r.Label, Kind: r.Kind, Pos: r.Pos})
+	fmt.Printf("replay %s: ran=%v reproduced=%v detail=%s\n", args[0], out.Ran, out.Reproduced, out.Detail)
+	if out.Reproduced {
+		return 1
+	}
+	return 0
 }
